@@ -148,6 +148,7 @@ def spawn_default(run, f):
     # (`get().copied().unwrap_or(D)`, `match get() {Some(&v) => v, None => D}`, `get().map_or(D, |&v| v)`, a helper fn, ...)
     import pathsem
     cfg_static = configured_static(f)
+    model = cell_model(f)
     good = False
     dflt = None
     shown = "?"
@@ -168,7 +169,15 @@ def spawn_default(run, f):
                     st = a_[1] if a_[0] == "static" else None
                 vs = {p: v for (c, v) in ent for (k, p) in c}
                 dflt = vs[False]
-                good = st is not None and st == cfg_static and vs[True] == ("payload", g) and dflt[0] == "int"
+                good = st is not None and st == cfg_static and vs[True] == ("payload", g) and dflt[0] == "int" and model[0] == "oncelock"
+            elif k1 == k2 and k1[0] == "callv" and k1[1].startswith(ATOMIC) and k1[1].endswith("::load") and {p1, p2} == {True, False} and model and model[0] == "atomic":
+                # `match CELL.load() { 0 => D, n => n }`: one load; "is it non-zero" decides, the non-zero value itself is passed on
+                a_ = k1[2][0] if k1[2] else ("?",)
+                a_ = a_[1] if a_[0] == "ref" else a_
+                st = a_[1] if a_[0] == "static" else None
+                vs = {p: v for (c, v) in ent for (k, p) in c}
+                dflt = vs[False]
+                good = st is not None and st == cfg_static and model[2] == 0 and vs[True] == k1 and dflt[0] == "int"
     except pathsem.TooComplex as e:
         shown = "not a loop-free computation (%s)" % e
     run.require(good, "O9.3", "spawn-capacity-expression", "spawn passes { %s } as capacity (expected: the configured value if set_default_mailbox_capacity was called, else the built-in default, unchanged)" % shown[:300],
@@ -179,22 +188,53 @@ def spawn_default(run, f):
     run.require(a0 == ("param", 1), "O9.3", "spawn-args-forwarded", "spawn does not forward its args", "args forwarded")
 
 
-def configured_static(f):
-    """The process-wide OnceLock holding the configured default: the static that set_default_mailbox_capacity `set`s."""
+ATOMIC = "std::sync::atomic::Atomic"
+
+
+def cell_model(f):
+    """How the process-wide configured default is stored. Two representations are understood:
+       ("oncelock", static)          - a OnceLock that set_default_mailbox_capacity `set`s, read with `get`;
+       ("atomic", static, sentinel)  - an atomic integer whose initial value `sentinel` means "not configured", claimed with
+                                       compare_exchange(sentinel, n) and read with `load`.
+    Anything else: None (the rules fail closed)."""
     from rules.c13 import _static_of
     body = f.body("set_default_mailbox_capacity")
     if body is None:
         return None
     tr = tracer_of(body)
-    out = set()
-    for blk in live_calls(body):
-        fn = fn_of(blk)
-        if fn.get("name") == "set" and (fn.get("def") or "").startswith("std::sync::OnceLock") and blk.term["args"]:
+    once, atom = set(), set()
+    for fam in f.family("set_default_mailbox_capacity"):
+        tr = tracer_of(fam)
+        for blk in live_calls(fam):
+            fn = fn_of(blk)
+            d = fn.get("def") or ""
+            if not blk.term["args"]:
+                continue
             pl = blk.term["args"][0].get("move") or blk.term["args"][0].get("copy")
-            st = _static_of(body, tr, pl) if pl else None
-            if st:
-                out.add(st)
-    return out.pop() if len(out) == 1 else None
+            st = _static_of(fam, tr, pl) if pl else None
+            if not st:
+                continue
+            if fn.get("name") == "set" and d.startswith("std::sync::OnceLock"):
+                once.add(st)
+            elif d.startswith(ATOMIC):
+                atom.add(st)
+    if len(once) == 1 and not atom:
+        return ("oncelock", once.pop())
+    if len(atom) == 1 and not once:
+        st = atom.pop()
+        sb = f.body(st)
+        sent = None
+        if sb is not None:
+            news = [k for k in live_calls(sb) if (fn_of(k).get("def") or "").startswith(ATOMIC) and fn_of(k).get("name") == "new"]
+            if len(news) == 1:
+                sent = const_int(news[0].term["args"][0])
+        return ("atomic", st, sent)
+    return None
+
+
+def configured_static(f):
+    m = cell_model(f)
+    return m[1] if m else None
 
 
 def _static_arg(b, tr, call_bb):
@@ -216,16 +256,42 @@ def set_default(run, f):
         path.effects.append(("OnceLock::set", mi.show(args[1])))
         return [(path, choice("set", [ok(("unit",)), err(args[1])]))]
 
+    model = cell_model(f)
+
+    def bi_cas(it, fn, args, path, body_, blk, depth):
+        # compare_exchange(expected, new): stores `new` only if the cell holds `expected`; exactly one caller can succeed
+        path.effects.append(("OnceLock::set", mi.show(args[2]), "cas", mi.show(args[1]), fn.get("name")))
+        return [(path, choice("set", [ok(args[1]), err(sym("current"))]))]
+
+    def bi_overwrite(it, fn, args, path, body_, blk, depth):
+        path.effects.append(("overwrite", fn.get("name"), mi.show(args[1]) if len(args) > 1 else None))
+        unset = model[2] if model and model[0] == "atomic" and model[2] is not None else 0
+        return [(path, choice("previous", [("i", unset), ("i", unset + 12345)]))]       # the value that was there: unconfigured / something else
+
+    def only_atomic(bi):
+        return lambda it, fn, args, path, body_, blk, depth: bi(it, fn, args, path, body_, blk, depth) if (fn.get("def") or "").startswith(ATOMIC) else None
+    atomic_bi = {"name:compare_exchange": only_atomic(bi_cas), "name:compare_exchange_weak": only_atomic(bi_cas)}
+    for nm in ("swap", "store", "fetch_add", "fetch_sub", "fetch_max", "fetch_min", "fetch_or", "fetch_and", "fetch_xor", "fetch_nand", "fetch_update"):
+        atomic_bi["name:" + nm] = only_atomic(bi_overwrite)
     bad = []
     tables = {}
     for size, label in ((("i", 0), "zero"), (("i", 7), "nonzero")):
-        it = Interp(f, builtins={"std::sync::OnceLock::<T>::set": bi_set})
+        it = Interp(f, builtins=dict({"std::sync::OnceLock::<T>::set": bi_set}, **atomic_bi))
         try:
             res = it.table(body, [size])
         except (mi.Unsupported, mi.Infeasible) as e:
             bad.append("cannot evaluate: %s" % e)
             continue
         for p, v in res:
+            over = [e for e in p.effects if e[0] == "overwrite"]
+            if over:
+                bad.append("size %s: the configured default is written unconditionally (%s): a rejected second configuration would still replace the first" % (size[1], ", ".join("%s(%s)" % (e[1], e[2]) for e in over)))
+            for e in p.effects:
+                if e[0] == "OnceLock::set" and len(e) > 2:
+                    if e[4] != "compare_exchange":
+                        bad.append("%s may fail although the cell is unconfigured: the first configuration could be rejected" % e[4])
+                    if model is None or model[0] != "atomic" or model[2] is None or e[3] != str(model[2]):
+                        bad.append("compare_exchange expects %s, the cell's initial (unconfigured) value is %s" % (e[3], model[2] if model and len(model) > 2 else None))
             sets = [e for e in p.effects if e[0] == "OnceLock::set"]
             variant = v[2] if v[0] == "enum" else None
             errv = v[3][0][2] if variant == "Err" and v[3][0][0] == "enum" else None
@@ -248,6 +314,9 @@ def set_default(run, f):
     from rules.c13 import _static_of
     cfgs = configured_static(f)
     run.require(cfgs is not None, "O9.4", "configured-static", "cannot identify the OnceLock static that set_default_mailbox_capacity writes", "static %s" % cfgs)
+    if model and model[0] == "atomic":
+        run.require(model[2] == 0, "O9.4", "sentinel-is-rejected-value", "the cell's initial value %s is not the value set_default_mailbox_capacity rejects (0): a legal capacity would read as 'not configured'" % (model[2],),
+                    "the unconfigured marker 0 can never be stored: size 0 is rejected before any write")
     wr = []
     for b, blk in all_calls(f):
         tr = tracer_of(b)
@@ -255,5 +324,6 @@ def set_default(run, f):
             pl = a.get("move") or a.get("copy")
             if pl is not None and cfgs is not None and _static_of(b, tr, pl) == cfgs:
                 wr.append((fn_of(blk).get("name"), b.name))
-    others = [w for w in wr if w[0] not in ("get",) and not (w[0] == "set" and w[1] == d)]
-    run.require(not others and ("set", d) in wr, "O9.4", "oncelock-writers", "the capacity OnceLock is also used by %s" % others, "OnceLock written only by set_default_mailbox_capacity (uses: %s)" % sorted(set(wr)))
+    wname = "set" if not (model and model[0] == "atomic") else "compare_exchange"
+    others = [w for w in wr if w[0] not in ("get", "load") and not (w[0] == wname and w[1] == d)]
+    run.require(not others and (wname, d) in wr, "O9.4", "oncelock-writers", "the capacity OnceLock is also used by %s" % others, "OnceLock written only by set_default_mailbox_capacity (uses: %s)" % sorted(set(wr)))
